@@ -11,9 +11,10 @@ ops (the script lines of the harness; hints `e=` are ignored):
   inject <to> <epoch> <index> [round]     a packet signed with that epoch's share of that index, delivered at once
   plog                                    no-op
 result: m=<heads> r=<round> ep=<vault epoch per node, - when down> [tr= epoch=] [role=] [inj=ok|refused:<why>]
-The variant (`cfg.lateSwitch`) is the regenerated `Gen.transitionLateSwitch`.
+The variants are the regenerated facts: `cfg.lateSwitch` = `Gen.transitionLateSwitch`, `cfg.replaceSameIndex` = `Gen.replaceSameIndex`.
 -/
 import Drand.Net.Reshare
+import Gen.CacheRules
 namespace Drand.Driver.NetRD
 open Drand.Net.Reshare
 
@@ -23,7 +24,7 @@ structure Epoch where
   tRound : Nat
 
 structure Drv where
-  s : State := State.init ⟨false⟩ 0 0 ⟨[], 0⟩
+  s : State := State.init ⟨false, false⟩ 0 0 ⟨[], 0⟩
   k : Nat := 1
   steps : Nat := 0
   grp : List Nat := []
@@ -95,7 +96,7 @@ def step (d : Drv) (f0 : List String) : Drv × String :=
       let spare := ((tokenVal rest "spare=").bind String.toNat?).getD 0
       if idx.length != nn then bad else
       let g : Grp := ⟨(List.range nn).map (fun i => ⟨i, idx.getD i i⟩), thr⟩
-      let s := State.init ⟨Gen.transitionLateSwitch⟩ (nn + spare) 64 g
+      let s := State.init ⟨Gen.transitionLateSwitch, Gen.replaceSameIndex⟩ (nn + spare) 64 g
       let d1 : Drv := { s := normalize s, k := k, grp := List.replicate (nn + spare) 0, epochs := [⟨0, g, 0⟩] }
       (d1, snapshot d1)
     | _, _, _ => bad
